@@ -33,6 +33,7 @@ struct vf_shared {
 	char		slot[VF_MAX_WORKERS + 1][VF_SLOT_LEN];
 	char		slot_prop[VF_MAX_WORKERS + 1][16];
 	atomic_long	slot_item[VF_MAX_WORKERS + 1];
+	atomic_long	heartbeat[VF_MAX_WORKERS + 1];	/* bumped by vf_slot()/vf_heartbeat(); a worker that stops bumping is hung */
 };
 
 static struct vf_shared	*S;
@@ -184,7 +185,8 @@ void vf_note (const char *fmt, ...)
 	va_end (ap);
 }
 
-char *vf_slot (void) { return S->slot[g_me]; }
+char *vf_slot (void) { atomic_fetch_add (&S->heartbeat[g_me], 1); return S->slot[g_me]; }
+void vf_heartbeat (void) { atomic_fetch_add (&S->heartbeat[g_me], 1); }
 void vf_slot_set_prop (const char *prop) { snprintf (S->slot_prop[g_me], 16, "%s", prop); }
 
 /* ---- ASan report parsing ------------------------------------------------------- */
@@ -265,14 +267,39 @@ void vf_pool_run (long nitems, vf_item_fn fn, void *arg, int item_timeout_s)
 		if (pids[i] == 0) worker_main (i, nitems, fn, arg, item_timeout_s);
 		if (pids[i] > 0) alive++;
 	}
+	{
+	long last_hb[VF_MAX_WORKERS]; double last_t[VF_MAX_WORKERS];
+	double stall_s = getenv ("VF_STALL_S") ? atof (getenv ("VF_STALL_S")) : 180.0;
+	int hung[VF_MAX_WORKERS];
+	for (i = 0; i < nw; i++) { last_hb[i] = -1; last_t[i] = now_s (); hung[i] = 0; }
 	while (alive > 0) {
 		int st;
-		pid_t p = wait (&st);
+		pid_t p = waitpid (-1, &st, WNOHANG);
+		if (p == 0) {
+			/* nobody ended: look for a worker whose heartbeat stopped (endless loop inside a library call) */
+			double t = now_s ();
+			for (i = 0; i < nw; i++) {
+				long hb;
+				if (pids[i] <= 0) continue;
+				hb = atomic_load (&S->heartbeat[i]);
+				if (hb != last_hb[i]) { last_hb[i] = hb; last_t[i] = t; }
+				else if (t - last_t[i] > stall_s && !hung[i]) { hung[i] = 1; kill (pids[i], SIGKILL); }
+			}
+			usleep (20000);
+			continue;
+		}
 		if (p < 0) { if (errno == EINTR) continue; break; }
 		for (i = 0; i < nw; i++) if (pids[i] == p) break;
 		if (i == nw) continue;
 		alive--;
 		if (WIFEXITED (st) && WEXITSTATUS (st) == 0) { pids[i] = -1; continue; }
+		if (hung[i]) {
+			long it = atomic_load (&S->slot_item[i]);
+			hung[i] = 0; last_hb[i] = -1; last_t[i] = now_s ();
+			vf_viol (S->slot_prop[i][0] ? S->slot_prop[i] : (g_prop[0] ? g_prop : "C00"), "kind=hang", "%s", S->slot[i][0] ? S->slot[i] : "(no case recorded)");
+			vf_incomplete ("item %ld aborted: no progress for %.0f s (hang); last case: %.150s", it, stall_s, S->slot[i]);
+			goto restart_worker;
+		}
 		/* abnormal end of worker i */
 		{
 			long it = atomic_load (&S->slot_item[i]);
@@ -291,7 +318,9 @@ void vf_pool_run (long nitems, vf_item_fn fn, void *arg, int item_timeout_s)
 				vf_incomplete ("item %ld aborted by a crash (%s)", it, sig);
 			}
 		}
+restart_worker:
 		/* restart a worker in the same slot for the remaining items */
+		last_t[i] = now_s ();
 		if (atomic_load (&S->next_item) < nitems) {
 			fflush (NULL);
 			atomic_store (&S->slot_item[i], -1);
@@ -300,6 +329,7 @@ void vf_pool_run (long nitems, vf_item_fn fn, void *arg, int item_timeout_s)
 			if (pids[i] > 0) alive++;
 		} else pids[i] = -1;
 	}
+}
 }
 
 int vf_run_isolated (vf_item_fn fn, long item, void *arg, int timeout_s, char *asan_kind, char *asan_func, size_t sz)
